@@ -208,6 +208,25 @@ func c03Forwarded(g *getShape, ret *ssa.Return) (string, string) {
 		allocs[i], names[i] = localFieldLoad(r)
 	}
 	if allocs[0] == nil || allocs[0] != allocs[1] || allocs[1] != allocs[2] {
+		// plain locals: the three results of one recursive call, in order
+		var call *ssa.Call
+		okExtracts := true
+		for i, r := range ret.Results {
+			ex, ok := unwrapLoad(r).(*ssa.Extract)
+			if !ok || ex.Index != i {
+				okExtracts = false
+				break
+			}
+			cl, ok := ex.Tuple.(*ssa.Call)
+			if !ok || (call != nil && cl != call) {
+				okExtracts = false
+				break
+			}
+			call = cl
+		}
+		if okExtracts && call != nil && call.Call.StaticCallee() == g.fn {
+			return "the recursive redirect call", ""
+		}
 		return "", "the three results are not fields of one local bundle"
 	}
 	a := allocs[0]
@@ -518,7 +537,7 @@ func c03R2(c *Ctx) {
 			nDial++
 			c.check(!inCycle(call.Block()), fname+"/dial-not-in-loop", P.InstrPos(in), fname, "the dial is not inside a loop", "the dial is inside a loop: more than one request per hop")
 		}
-		if f.Name() == "Write" && len(call.Call.Args) > 0 && call.Call.Args[0] == g.conn {
+		if f.Name() == "Write" && ((len(call.Call.Args) > 0 && call.Call.Args[0] == g.conn) || (call.Call.IsInvoke() && stripIface(unwrapLoad(call.Call.Value)) == g.conn)) {
 			nWrite++
 			c.check(!inCycle(call.Block()), fname+"/write-not-in-loop", P.InstrPos(in), fname, "the request is written once", "the request write is inside a loop")
 		}
@@ -569,7 +588,7 @@ func c03R3(c *Ctx) {
 				return false
 			}
 			s, isC := constString(call.Call.Args[1])
-			return isC && s == "3" && call.Call.Args[0] == g.status
+			return isC && s == "3" && stripStringConv(call.Call.Args[0]) == stripStringConv(g.status)
 		}, true)
 		c.check(is3, fname+"/redirect-only-3xx", pos, fname, "the redirect is followed only when the status starts with 3", "a redirect is followed for a status that is not 3xx")
 	}
@@ -868,6 +887,10 @@ func onlyErrorReturnsFrom(b *ssa.BasicBlock) bool {
 		}
 		if ret, isRet := x.Instrs[len(x.Instrs)-1].(*ssa.Return); isRet {
 			any = true
+			if len(ret.Results) == 0 {
+				ok = false
+				return
+			}
 			last := ret.Results[len(ret.Results)-1]
 			if !provablyNonNilErr(last, x, 0) {
 				ok = false
@@ -1093,7 +1116,7 @@ func c03R5(c *Ctx) {
 		}
 		okR := false
 		why := "the status returned is not capture 1 of statusLineRegexp applied to the line"
-		if u, ok := ret.Results[0].(*ssa.UnOp); ok && u.Op == token.MUL {
+		if u, ok := stripStringConv(ret.Results[0]).(*ssa.UnOp); ok && u.Op == token.MUL {
 			if ia, ok := u.X.(*ssa.IndexAddr); ok {
 				if k, isC := constInt(ia.Index); isC && k == 1 {
 					if call, ok := ia.X.(*ssa.Call); ok && isLibCall(&call.Call, "regexp", "Regexp", "FindStringSubmatch") {
@@ -1525,4 +1548,25 @@ func c03R8(c *Ctx) {
 		})
 	}
 	c.check(n >= 1, "servitor/client.FetchURL/coalescing", P.Pos(P.Func("servitor/client", "FetchURL").Pos()), "servitor/client.FetchURL", fmt.Sprintf("%d singleflight call sites", n), "fetches are no longer coalesced through singleflight (informational)")
+}
+
+// stripStringConv: through conversions between string types (a named status
+// type and string).
+func stripStringConv(v ssa.Value) ssa.Value {
+	for i := 0; i < 4 && v != nil; i++ {
+		switch x := v.(type) {
+		case *ssa.ChangeType:
+			if isStringType(x.Type()) && isStringType(x.X.Type()) {
+				v = x.X
+				continue
+			}
+		case *ssa.Convert:
+			if isStringType(x.Type()) && isStringType(x.X.Type()) {
+				v = x.X
+				continue
+			}
+		}
+		return v
+	}
+	return v
 }
